@@ -424,4 +424,9 @@ theorem frAll_cloneMat {s : Store} (h : FrAll s) (src n : Nat) : FrAll (cloneMat
       exact applyMemo_lt c y (Nat.lt_of_lt_of_le (h.mat src y hy) b)
     · exact a
 
+theorem frAll_readInto {s : Store} (h : FrAll s) (l : Nat) (pre : List String) (docs : List (List String)) :
+    FrAll (readInto s l pre docs) := by
+  simp only [readInto]
+  exact frAll_setTrees (frAll_readTrees _ docs (frAll_requireList _ _ pre h).1) _ _
+
 end DendroModel.C11.Fresh
